@@ -115,7 +115,13 @@ def _nightly_sysroot():
     return r.stdout.strip()
 
 
-def _prune_cache(keep=120):
+def _prune_cache(keep=None):
+    # the self-validation runs (hundreds of scratch trees) set NFSA_CACHE_KEEP higher so that they do not evict one another
+    if keep is None:
+        try:
+            keep = int(os.environ.get("NFSA_CACHE_KEEP", "120"))
+        except ValueError:
+            keep = 120
     try:
         for f in os.listdir(CACHE):
             if f.startswith(".lock-"):
